@@ -78,3 +78,11 @@ type verifC14_reporter struct{}
 func (verifC14_reporter) ReportEntry(nextCookie uint64, name path.Component, child DirectoryChild, attributes *Attributes) bool {
 	return true
 }
+
+// A listing that backs off from a busy child directory (LockPile gives up the
+// parent's lock, waits, re-takes both in the other order) and then releases
+// the child's lock alone: the parent's lock must still be released at the end.
+func verifHarness_C14_ListingBacksOffFromBusyChild() {
+	rt.MustCover("busy:renamed-away", "busy:left-alone")
+	verifC13_listingWaitsForBusyChild()
+}
